@@ -29,6 +29,12 @@ func checkC02(c *Check) {
 	ruleBuffersRefetched(c, p, "R02.10", "Writer", "Reader", "CompressingReader")
 	ruleContentHashDiscipline(c, p, "R02.11")
 	c.RuleDoc["R02.10"] = "block-sized buffers agree with the frame's block size: re-fetched at frame start"
+	ruleOwnBufferNotAliased(c, p, "R02.15")
+	c.RuleDoc["R02.15"] = "the Reader's block buffer never becomes the caller's buffer"
+	ruleLegacyDescriptor(c, p, "R02.14")
+	c.RuleDoc["R02.14"] = "the synthetic legacy descriptor declares only the block size (= R06.7)"
+	rulePendingConsumedOnce(c, p, "R02.13")
+	c.RuleDoc["R02.13"] = "the accumulation buffer is consumed exactly once and in call order: w.idx reset after every hand-over, ReadFrom flushes pending bytes first"
 	ruleSizeGuardExact(c, p, "R02.12")
 	c.RuleDoc["R02.12"] = "the oversize exit of the block reader is strict: blocks of exactly the maximum size are accepted"
 	c.RuleDoc["R02.11"] = "content hash fed in stream order only, reset at frame start only"
@@ -57,6 +63,8 @@ func checkC08(c *Check) {
 	ruleOrderingGoroutineLatch(c, p, "R08.10")
 	ruleContentHashDiscipline(c, p, "R08.11")
 	ruleContentHashFeed(c, p, "R08.12")
+	ruleConcurrencyAtLeastOne(c, p, "R08.14")
+	c.RuleDoc["R08.14"] = "the stored concurrency is at least 1"
 	c.RuleDoc["R08.13"] = "a caller's buffer is compressed in place only in sequential mode (= R02.7): the pipeline goroutines never read a slice the caller may reuse after Write returns"
 	ruleDirectWrite(c, p, "R08.13")
 	c.RuleDoc["R08.11"] = "the shared running hash is touched only by the ordered path (no per-block worker feeds or resets it)"
@@ -86,6 +94,12 @@ func checkC09(c *Check) {
 	ruleResetRearms(c, p, "R09.10")
 	ruleContentHashDiscipline(c, p, "R09.11")
 	ruleContentSizeWriters(c, p, "R09.12")
+	ruleSizeOptionArms(c, p, "R09.15")
+	c.RuleDoc["R09.15"] = "SizeOption sets flag and size unconditionally for every object kind (the header announces the configured size, 0 = none)"
+	rulePendingConsumedOnce(c, p, "R09.16")
+	c.RuleDoc["R09.16"] = "= R02.13 (pending bytes emitted once, in call order)"
+	ruleBuffersRefetched(c, p, "R09.17", "Writer")
+	c.RuleDoc["R09.17"] = "the Writer's block buffer is sized from the block-size code of the frame being started (legacy: 8 MiB of content per block)"
 	ruleNoEmptyBlock(c, p, "R09.14", "")
 	c.RuleDoc["R09.14"] = "no empty data block is emitted: prefix slices handed to the block compressor have a positive length"
 	ruleNestedRearm(c, p, "R09.13")
